@@ -70,7 +70,10 @@ C01Violations(W, q, r) ==
 ListingMarker == <<122, 113, 122, 113>>              \* "zqzq": every generated directory holds an entry whose name contains it
 NotFoundPage(W) == ResolveFrom(W, W.root, <<"404.html">>)
 
-BodyIsFile(W, f, r) == r.body_len = FileLen(W, f) /\ r.body = FileBytes(W, f)
+\* a body of more than 1 MiB is observed as a sample (offsets within the body and the bytes found there): it is the slice of
+\* file f that starts at file offset lo as far as the sample can tell
+SampleIsSlice(W, f, r, lo) == \A k \in DOMAIN r.sample.pos : r.sample.val[k] = FileByte(W, f, lo + r.sample.pos[k])
+BodyIsFile(W, f, r) == r.body_len = FileLen(W, f) /\ (IF r.big THEN SampleIsSlice(W, f, r, 0) ELSE r.body = FileBytes(W, f))
 
 TypeViolations(W, f, r) ==
     LET e == Node(W, f).ext  el == Node(W, f).extl IN
@@ -171,6 +174,7 @@ PartIsSlice(W, f, p) ==
     /\ p.body = FileSlice(W, f, p.lo, p.hi)
 
 BigList == 129
+BigFile == 1048576
 C03Violations(W, q, r) ==
     IF ~(q.method = "GET" /\ PlainPath(q) /\ q.range.present /\ ~Reserved(q)) THEN {}
     ELSE LET L == Lookup(W, q.segs) IN
@@ -183,6 +187,17 @@ C03Violations(W, q, r) ==
                    THEN (IF r.status = 206 THEN {} ELSE {"C03.satisfiable_not_206"})
                         \cup (IF r.status = 206 /\ ~IsMultipart(r) THEN {"C03.not_multipart"} ELSE {})
                         \cup (IF r.status = 206 /\ IsMultipart(r) /\ r.ndelims # Len(specs) + 1 THEN {"C03.part_count"} ELSE {})
+                   ELSE {}
+              ELSE IF len > BigFile
+              THEN \* a file too long for byte-by-byte bodies: ONE range inside the file => 206, the label, the two lengths, the sample
+                   IF q.range.unit_ok /\ q.range.style # "empty_element" /\ Len(specs) = 1 /\ InFile(len, specs[1])
+                   THEN LET sl == Slice(len, specs[1])
+                            cr == IF HdrCount(r, "content-range") = 1 THEN CRParse(r.hs[FirstIdx(r, "content-range")].vb) ELSE [ok |-> FALSE, lo |-> 0, hi |-> 0, size |-> 0]
+                        IN (IF r.status = 206 THEN {} ELSE {"C03.satisfiable_not_206"})
+                           \cup (IF r.status = 206 /\ ~(cr.ok /\ cr.lo = sl.lo /\ cr.hi = sl.hi /\ cr.size = len) THEN {"C03.content_range_label"} ELSE {})
+                           \cup (IF r.status = 206 /\ ~(ContentLengthOk(r) /\ ContentLength(r) = sl.hi - sl.lo + 1) THEN {"C03.content_length"} ELSE {})
+                           \cup (IF r.status = 206 /\ ~(r.body_len = sl.hi - sl.lo + 1 /\ (IF r.big THEN SampleIsSlice(W, f, r, sl.lo) ELSE r.body = FileSlice(W, f, sl.lo, sl.hi)))
+                                 THEN {"C03.bytes"} ELSE {})
                    ELSE {}
               ELSE
               IF q.range.unit_ok /\ q.range.style # "empty_element" /\ Len(specs) >= 1 /\ \A i \in 1..Len(specs) : InFile(len, specs[i])
@@ -225,6 +240,7 @@ C03Detail(W, q, r) ==
     ELSE LET L == Lookup(W, q.segs) IN
          IF L.sel \notin {"file", "index", "html"} THEN <<>>
          ELSE IF Len(q.range.specs) > BigList THEN <<>>
+         ELSE IF FileLen(W, L.node) > BigFile THEN <<>>
          ELSE LET f == L.node  len == FileLen(W, f)  specs == q.range.specs  parts == RangeParts(r)
                   sat == q.range.unit_ok /\ q.range.style # "empty_element" /\ Len(specs) >= 1 /\ \A i \in 1..Len(specs) : InFile(len, specs[i])
               IN [i \in 1..Len(parts) |->
